@@ -380,6 +380,8 @@ theorem rebuild_spec {K : Nat} : ∀ (v : View) (old : RState) (s : St), RInv K 
   | «show» c a b _ _ => intro old s _ _ _ hc; simp [View.core] at hc
   | scope sid d kid _ => intro old s _ _ _ hc; simp [View.core] at hc
   | forRows en sel lists row _ => intro old s _ _ _ hc; simp [View.core] at hc
+  | eb kid _ => intro old s _ _ _ hc; simp [View.core] at hc
+  | res c x => intro old s _ _ _ hc; simp [View.core] at hc
   | forKeyed sel lists =>
     intro old s hi hg hw hc _
     cases old with
